@@ -28,6 +28,7 @@ func checkC20(r *Run) {
 	r.Rule("C20.R4.confine", "DynamicDeltaMultiplier.Source.Out is accessed only in functions reachable solely from DynamicDeltaMultiplier.Flow; Connect and Disconnect only send on the connection channels", 4)
 	r.Rule("C20.R7.blocking", "frames are handed to the relay with a blocking send: a send of a relayResponse is never a select alternative next to a default clause (shedding there drops the frame for every streamer, ready or not)", 1)
 	r.Rule("C20.R6.own", "a streamer's subscribed key set is only ever replaced as a whole by a value not built on the old slice: the initial slice belongs to the caller's configuration and may be shared between streamers", 1)
+	r.Rule("C20.R8.rendezvous", "the relay's multiplier takes connect and disconnect requests over unbuffered channels: relay.connect returns only once the relay goroutine has the streamer in its fan-out set, which is what makes a frame written after the streamer was opened reach it; with a buffer the request is merely queued next to frames already on their way", 2)
 	r.Rule("C20.R5.rearm", "AbstractMultiSource.SendToEachWithTimeout sends inside a select with ctx.Done and the timer, and the timer case re-arms the timer before the next send", 2)
 
 	checkRelayEntry(r, p)
@@ -38,6 +39,7 @@ func checkC20(r *Run) {
 	checkRearm(r, p)
 	checkSubscriptionOwnership(r, p)
 	checkRelaySendBlocks(r, p)
+	checkRelayRendezvous(r, p)
 }
 
 // checkSubscriptionOwnership decides C20.R6: the streamer's key set starts out as the
@@ -622,4 +624,52 @@ func checkRelaySendBlocks(r *Run, p *Prog) {
 	if n < 1 {
 		r.Undecide("C20.R7: no send of a relayResponse found in package cesium")
 	}
+}
+
+// checkRelayRendezvous decides C20.R8.
+func checkRelayRendezvous(r *Run, p *Prog) {
+	open := p.Func("cesium", "", "openRelay")
+	ctor := p.Func("x/confluence", "", "NewDynamicDeltaMultiplier")
+	if open == nil || ctor == nil {
+		r.Undecide("C20.R8: cesium.openRelay / confluence.NewDynamicDeltaMultiplier not found")
+		return
+	}
+	calls := CallsIn(open, calleeIs(ctor))
+	ok := len(calls) == 1
+	detail := fmt.Sprintf("%d constructor call(s)", len(calls))
+	if ok {
+		for _, a := range calls[0].Args[2:] {
+			if v, isConst := constInt(open, a); !isConst || v != 0 {
+				ok = false
+				detail = "connection buffer " + types.ExprString(a)
+			}
+		}
+		if calls[0].Ellipsis.IsValid() {
+			ok, detail = false, "connection buffers passed as a slice"
+		}
+	}
+	r.Ob("C20.R8.rendezvous", "openRelay builds the multiplier without connection buffers", p.Position(open.Pos()), ok, detail)
+	// and the constructor sizes both request channels from that argument only
+	sized := 0
+	inspectNoLit(ctor.Body, func(n ast.Node) bool {
+		call, isCall := n.(*ast.CallExpr)
+		if !isCall {
+			return true
+		}
+		if bi, isB := Callee(ctor, call).(*types.Builtin); isB && bi.Name() == "make" && len(call.Args) == 2 {
+			if _, isChan := ctor.Pkg.TypesInfo.TypeOf(call.Args[0]).Underlying().(*types.Chan); isChan {
+				if o := objOf(ctor, call.Args[1]); o != nil {
+					if rhs, _, d := varDefinedBy(ctor, o); d {
+						if c2, ok := ast.Unparen(rhs).(*ast.CallExpr); ok {
+							if f := CalleeFunc(ctor, c2); f != nil && f.Name() == "parseBuffer" {
+								sized++
+							}
+						}
+					}
+				}
+			}
+		}
+		return true
+	})
+	r.Ob("C20.R8.rendezvous", "NewDynamicDeltaMultiplier sizes the connect and disconnect channels from its connectionBuffers argument", p.Position(ctor.Pos()), sized == 2, fmt.Sprintf("%d request channels sized by parseBuffer(connectionBuffers)", sized))
 }
